@@ -261,4 +261,75 @@ theorem pkcs7Unpad_pad (d : Bytes) : pkcs7Unpad (pkcs7Pad d) = .ok d := by
   rw [if_neg]
   simp [List.replicate_succ']
 
+/-! ## `from_password`, revisions 2–4, piece by piece -/
+
+theorem iter_congr {α : Type} {f g : α → α} (Q : α → Prop) (hQ : ∀ a, Q a → Q (f a)) (hfg : ∀ a, Q a → f a = g a)
+    (n : Nat) (a : α) (ha : Q a) : iter f n a = iter g n a := by
+  induction n generalizing a with
+  | zero => rfl
+  | succ n ih => simp only [iter]; rw [← hfg a ha]; exact ih _ (hQ a ha)
+
+theorem alg2Digest_length {H : Hashes} (hw : H.WF) (r n : Nat) (o : Bytes) (p : Int) (id0 : Bytes) (em : Bool) (pw : Bytes) :
+    (alg2Digest H r n o p id0 em pw).length = 16 := by
+  unfold alg2Digest
+  simp only []
+  by_cases h3 : r ≥ 3
+  · rw [if_pos h3]; exact iter_length (fun x => hw.md5_len _) _ _ (hw.md5_len _)
+  · rw [if_neg h3]; exact hw.md5_len _
+
+theorem keyDerivUser_eq {P : Prims} {H : Hashes} (hp : PrimsAgree P H) (r n : Nat) (hn : n ≤ 16) (d : CryptDict) (id pw : Bytes) :
+    keyDerivUser P r n d id pw = .ok (alg2Digest H r n d.o d.p id d.encryptMetadata pw) := by
+  have hsuf : (if r ≥ 4 ∧ (!d.encryptMetadata) = true then ([0xff, 0xff, 0xff, 0xff] : Bytes) else []) =
+      (if r ≥ 4 ∧ d.encryptMetadata = false then [0xff, 0xff, 0xff, 0xff] else []) := by
+    cases d.encryptMetadata <;> simp
+  unfold keyDerivUser alg2Digest
+  simp only [hp.md5, Out.bind_ok, padPass_eq, i32le_eq, hsuf, Nat.min_eq_left hn,
+    show max n 16 - 16 = 0 by omega, List.replicate_zero, List.append_nil]
+  by_cases h3 : r ≥ 3
+  · simp only [if_pos h3, md5Iter_eq hp, Out.bind_ok]
+  · simp only [if_neg h3, Out.bind_ok]
+
+theorem keyDerivOwner_eq {P : Prims} {H : Hashes} (hp : PrimsAgree P H) (hw : H.WF) (r n : Nat) (hn : n ≤ 16) (pw : Bytes) :
+    keyDerivOwner P r n pw = .ok (alg3Key H r n pw) := by
+  unfold keyDerivOwner alg3Key
+  rw [if_neg (by omega)]
+  simp only [hp.md5, Out.bind_ok, padPass_eq]
+  by_cases h3 : r ≥ 3
+  · simp only [if_pos h3, md5Iter_eq hp, Out.bind_ok]
+    rw [iter_congr (fun a : Bytes => a.length = 16) (fun a _ => hw.md5_len _)
+      (fun a ha => by rw [List.take_of_length_le (Nat.le_of_eq ha)]) 50 _ (hw.md5_len _)]
+  · simp only [if_neg h3, Out.bind_ok]
+
+theorem range20 : List.range 20 = 0 :: (List.range 19).map (1 + ·) := by decide
+
+theorem computeURev34_eq {P : Prims} {H : Hashes} (hp : PrimsAgree P H) (id k : Bytes) (hk : validKey k) :
+    computeURev34 P id k = .ok (rc4Chain k (List.range 20) (H.md5 (PADDING ++ id))) := by
+  unfold computeURev34
+  simp only [hp.md5, Out.bind_ok, rc4Encrypt_eq hk]
+  rw [show roundList 1 20 = ((List.range 19).map (1 + ·)).map UInt8.ofNat from roundList_eq 1 20, rc4Rounds_eq hk,
+    range20, rc4Chain_cons, xorKey_zero]
+
+/-- the boolean the model computes is the decision of the standard's comparison -/
+theorem checkPasswordRc4_eq {P : Prims} {H : Hashes} (hp : PrimsAgree P H) (hw : H.WF) (r : Nat) (u id k : Bytes) (hk : validKey k) :
+    checkPasswordRc4 P r u id k = .ok (decide (if r = 2 then makeU H 2 k id [] = u else makeU H r k id [] = u.take 16)) := by
+  unfold checkPasswordRc4
+  by_cases h2 : r = 2
+  · simp only [if_pos h2, computeURev2, rc4Encrypt_eq hk, Out.bind_ok, makeU]
+    congr 1
+    by_cases hc : rc4 k PADDING = u <;> simp [hc]
+  · simp only [if_neg h2, computeURev34_eq hp id k hk, Out.bind_ok, makeU, List.append_nil]
+    congr 1
+    have hl : (rc4Chain k (List.range 20) (H.md5 (PADDING ++ id))).length = 16 := by
+      rw [rc4Chain_length, hw.md5_len]
+    generalize rc4Chain k (List.range 20) (H.md5 (PADDING ++ id)) = c at hl
+    unfold startsWith
+    rw [hl]
+    by_cases hc : c = u.take 16
+    · have : 16 ≤ u.length := by
+        have := congrArg List.length hc; rw [hl, List.length_take] at this; omega
+      simp [hc, this]
+    · have : ¬ (u.take 16 = c) := fun e => hc e.symm
+      simp [hc, this]
+
 end Crypt
+
